@@ -279,8 +279,8 @@ func c14Enum(t *testing.T, name, rule string, kinds []string, syms []string, max
 
 func TestC14_StringsEnum(t *testing.T) {
 	maxLen := ev.Pick(3, 4)
-	syms := []string{"\\", "x", "X", "u", "0", "3", "7", "8", "a", "f", "g", "n", "?", "'", "\"", "é", "\x00"}
-	c14Enum(t, "StringsEnum", fmt.Sprintf("ALL strings of <=%d symbols over {backslash, x, X, u, 0, 3, 7, 8, a, f, g, n, ?, single quote, double quote, é, NUL} between double quotes and between single quotes (a quote inside may end the literal early and start an adjacent one), as the default of a bytes field and as the value of a bytes custom option; oracle: accepted exactly when the reference (language specification + the repository's pinned cases) accepts, and the decoded bytes in the compiled descriptor equal the reference's; non-trivial = literal with a backslash", maxLen),
+	syms := []string{"\\", "x", "X", "u", "0", "3", "7", "8", "a", "f", "g", "n", "?", "'", "\"", "é", "\x00", "+"}
+	c14Enum(t, "StringsEnum", fmt.Sprintf("ALL strings of <=%d symbols over {backslash, x, X, u, 0, 3, 7, 8, a, f, g, n, ?, single quote, double quote, é, NUL, +} between double quotes and between single quotes (a quote inside may end the literal early and start an adjacent one), as the default of a bytes field and as the value of a bytes custom option; oracle: accepted exactly when the reference (language specification + the repository's pinned cases) accepts, and the decoded bytes in the compiled descriptor equal the reference's; non-trivial = literal with a backslash", maxLen),
 		[]string{"str"}, syms, maxLen, func(s string) []string { return []string{"\"" + s + "\"", "'" + s + "'"} })
 }
 
@@ -397,13 +397,13 @@ func TestC14_NonASCIISweep(t *testing.T) {
 
 func TestC14_Long(t *testing.T) {
 	ev.Run(t, ev.Spec[c14Case]{ID: "C14", Name: "Long", Quick: 1500, Thorough: 60000,
-		Rule: "random longer literals: strings of 1-12 pieces (every simple escape, octal escapes of 1-3 digits incl. values above 0377, hex escapes of 0-3 digits, \\u and \\U escapes incl. out-of-range and truncated ones, invalid escapes incl. a backslash followed by a random non-ASCII code point, raw multi-byte characters, quotes, adjacent literals) and numbers (decimal/octal/hex integers around the 32/63/64-bit boundaries, floats with long mantissas and exponents up to +-400, malformed variants); same oracle as the enumerations",
+		Rule: "random longer literals: strings of 1-12 pieces (every simple escape, octal escapes of 1-3 digits incl. values above 0377, hex escapes of 0-3 digits, hex and unicode escapes with a sign, blank, underscore or 0x in front of the digits, \\u and \\U escapes incl. out-of-range and truncated ones, invalid escapes incl. a backslash followed by a random non-ASCII code point, raw multi-byte characters, quotes, adjacent literals) and numbers (decimal/octal/hex integers around the 32/63/64-bit boundaries, floats with long mantissas and exponents up to +-400, malformed variants); same oracle as the enumerations",
 		Gen: func(t *rapid.T) c14Case {
 			pos := gen.Pick(t, []string{"default", "option"}, "pos")
 			if gen.Pct(t, 55, "string") {
 				pieces := []string{"a", "Z", " ", "é", "日", "😀", "\\a", "\\b", "\\f", "\\n", "\\r", "\\t", "\\v", "\\\\", "\\'", "\\\"", "\\?",
 					"\\0", "\\7", "\\12", "\\101", "\\377", "\\400", "\\777", "\\1234", "\\8", "\\x", "\\x4", "\\x41", "\\x414", "\\X7f", "\\xg", "\\u0041", "\\u00e9", "\\u20AC", "\\u004", "\\uzzzz",
-					"\\U0001F600", "\\U0010FFFF", "\\U00110000", "\\U0001F60", "\\J", "\\ ", "\\"}
+					"\\x+1", "\\x-1", "\\x 1", "\\u+041", "\\u-041", "\\u 041", "\\U+0000041", "\\U-0000041", "\\U0x00041", "\\u0x41", "\\x_1", "\\u00_1", "\\U0001F600", "\\U0010FFFF", "\\U00110000", "\\U0001F60", "\\J", "\\ ", "\\"}
 				q := gen.Pick(t, []string{"\"", "'"}, "quote")
 				var sb strings.Builder
 				n := 1 + gen.Uniform(t, 12, "npieces")
